@@ -4,6 +4,8 @@ import OvniModel.Lemmas.BayTrack
 import OvniModel.Lemmas.BayBuild
 import OvniModel.Lemmas.BayTotal
 import OvniModel.Lemmas.BayTopo
+import OvniModel.Lemmas.CoreBayView
+import OvniModel.Lemmas.CoreBayTotal
 
 /-!
 # C06 — view consistency: the tracking muxes compute `thView` / `cpuView`
@@ -499,28 +501,264 @@ theorem topology_cpu_rows {L : Nat} {b0 b b1 bF : Bay} {em : List (Nat × Value)
       (Or.inl (by rw [hct.selEq]; exact hd)) hp
     exact cpu_view_of_sync hct hs
 
-/-
--- OPEN: the last composition step is stated with explicit mirror hypotheses
--- instead of being derived from the reference emulator.  Full statement:
---
---   for every `e : Emu` (Core.lean), every event accepted by `modelEvent e … = .ok e'`,
---   and the bay `B e` connected from `e`'s hierarchy (state channel of thread g,
---   `th_running` of CPU c, raw channel (g, model, i)) whose source channels mirror
---   `e`'s raw channels: the writes `modelEvent` performs are a `Bay.Writes (· < L)`
---   from `B e` to some `b1` mirroring `e'`, `b1.propagate` succeeds, and in the result
---   every thread-track output equals `thView t' m i` and every CPU-track output
---   equals `cpuView e' c m i`  (so `View.records` = what the emit callbacks see).
---
--- Proved here: everything after "mirroring" — `topology_thread_rows`,
--- `topology_cpu_rows` (the mechanism, any network size, any history, any write order)
--- and `track_thread_thView` / `track_cpu_cpuView` (the mechanism's result IS `thView` /
--- `cpuView` when the source channels mirror the emulator state).  Missing: the
--- simulation lemma "Core's handlers only perform channel writes on the mirrored source
--- channels" (a structural induction over `Core.modelEvent`, no new idea); until
--- then the mirror is a hypothesis and is what X2 tests on the real emulator.
--- Also outside the theorems (frame condition): muxes whose select is one of their own
--- inputs, and chained muxes (breakdown model) — covered by X1's correspondence only.
--/
+/-! ### The reference emulator drives the connected bay
+
+Vocabulary (`Lemmas/CoreBay*.lean`).  `e.shape` = (number of threads, number
+of CPUs, channel specs of the enabled models and the mark group);
+`e.shape.connect` = the bay `emu_connect` builds for that hierarchy with
+`register` / `trackThread` / `trackCpu`: source channels (state channel of
+every thread, `th_running` / `th_active` of every CPU, raw channel
+(thread, model, i)), then per model `model_thread_connect` and
+`model_cpu_connect`, one track per (thread | CPU, model, channel).
+`e.shape.idx s` is the bay id of source `s`, `e.shape.L` the number of
+sources, `e.shape.thOut g k i` / `e.shape.cpuOut c k i` the output channel of
+the track of channel `i` of model number `k` for thread `g` / CPU `c` (for
+mode ANY the raw channel itself).  `Mirrors e b`: every source channel of `b`
+IS the emulator's channel (values, `last_value`, dirty flag, properties).
+`Shaped e`: structural invariant of `Emu` states (`gindex` = position, channel
+groups as in the specs, distinct model characters, `th_running` names an
+existing thread, state channel = thread state).  `Inv b0 e b`: `b` has the
+muxes of the connected bay `b0`, is well formed, clean, safe, mirrors `e`, and
+every mux is in sync or has never been selected. -/
+
+/-- `bayOf e`: what `emu_connect` builds for the hierarchy of `e` (before the
+    connect-time writes and the first propagation). -/
+def bayOf (e : Emu) : Bay :=
+  match e.shape.connect with
+  | .ok b => b
+  | .error _ => {}
+
+theorem bayOf_eq {e : Emu} {b0 : Bay} (h : e.shape.connect = .ok b0) : bayOf e = b0 := by
+  simp [bayOf, h]
+
+/-- `bayOf e` is a two-level network over `e.shape.L` source channels; every
+    mux is a thread track (select = the thread's state channel, input = its raw
+    channel) or a CPU track (select = the CPU's `th_running`, input `g` = raw
+    channel of thread `g`, default = the model's idle default). -/
+theorem bayOf_topology {e : Emu} {b0 : Bay} (h : e.shape.connect = .ok b0) :
+    b0.Topo e.shape.L ∧ b0.chans.length = e.shape.L + e.shape.jobs.length ∧
+    (∀ (mi : Nat) (m : Mux), b0.muxes[mi]? = some m → TrackShape m ∧ b0.Frame mi m) := by
+  have hb := Shape.connect_built h
+  refine ⟨hb.topo, hb.len, fun mi m hm => ⟨?_, frame_of_layered hb.topo.layered mi m hm⟩⟩
+  cases hb.isTrack hm with
+  | th g k i ms out hg hk hi hmode => exact Or.inl ⟨_, _, _, hmode, rfl, rfl, rfl, rfl⟩
+  | cpu c k i ms out hc hk hi => exact Or.inr ⟨_, _, rfl, rfl, rfl⟩
+
+/-- **emu_thread_rows.**  In any bay tied to the emulator state by `Inv`, the
+    output of EVERY thread track is `thView` of that thread, model and channel
+    (all modes: ANY, RUN, ACT). -/
+theorem emu_thread_rows {e : Emu} {b0 b : Bay} (hc : e.shape.connect = .ok b0) (hs : Shaped e)
+    (hi : Inv b0 e b) {g k i : Nat} {t : Thread} {m : ModelSpec}
+    (ht : e.threads[g]? = some t) (hk : e.specs[k]? = some m) (hil : i < m.nch) :
+    (b.chan (e.shape.thOut g k i)).cur = thView t m i := by
+  obtain ⟨cs, hcs, hmch, hlen⟩ := hs.getChans ht hk
+  have hraw : b.chan (e.shape.idx (.raw g k i)) = cs.getD i {} := hi.raw_cur ht hmch (by rw [hlen]; exact hil)
+  have hk' : e.shape.specs[k]? = some m := hk
+  by_cases hna : m.thTrack.getD i 0 = trackAny
+  · have : e.shape.thOut g k i = e.shape.idx (.raw g k i) := by
+      simp only [Shape.thOut, hk', hna, if_true]
+    rw [this, hraw, thView, hcs, hna]
+    simp [trackHolds]
+  · have hg : g < e.threads.length := (List.getElem?_eq_some_iff.mp ht).1
+    obtain ⟨hmode, mi, mx, hm, rfl⟩ := hi.thMux hc hg hk hil hna
+    have hsync := (hi.sync mi _ hm).elim id (fun h => h.sync rfl)
+    have hst : StateChan (b.chan (e.shape.idx (.st g))).cur t.state := by
+      have hsrc : e.src (.st g) = some t.chState := by simp only [Emu.src, ht, Option.map_some]
+      rw [Bay.chan_of_getElem? (hi.mirrors _ _ hsrc)]
+      exact (hs.st g t ht).1
+    exact track_thread_thView t m i cs ⟨hmode, rfl, rfl, rfl, rfl⟩ hsync hcs hst (by rw [hraw])
+
+/-- **emu_cpu_rows.**  The output of EVERY CPU track is `cpuView` of that CPU,
+    model and channel — except a track with a non-null default (the idle channel
+    of nOS-V / Nanos6) on a CPU whose `th_running` has never been written: its
+    output is still null where `cpuView` already shows the default.  (The C code
+    never emits that default at time 0; `View.records` emits nothing either,
+    because `cpuView` does not change.) -/
+theorem emu_cpu_rows {e : Emu} {b0 b : Bay} (hc : e.shape.connect = .ok b0) (hs : Shaped e)
+    (hi : Inv b0 e b) {c k i : Nat} {x : Cpu} {m : ModelSpec}
+    (hx : e.cpus[c]? = some x) (hk : e.specs[k]? = some m) (hil : i < m.nch) :
+    (b.chan (e.shape.cpuOut c k i)).cur = cpuView e x m i ∨
+    (x.chThrun.cur = .null ∧ (b.chan (e.shape.cpuOut c k i)).cur = .null ∧ m.cpuDflt i ≠ .null) := by
+  have hcl : c < e.cpus.length := (List.getElem?_eq_some_iff.mp hx).1
+  obtain ⟨mi, mx, hm, rfl⟩ := hi.cpuMux hc hcl hk hil
+  have hsel : b.chan (e.shape.idx (.run c)) = x.chThrun := by
+    have hsrc : e.src (.run c) = some x.chThrun := by simp only [Emu.src, hx, Option.map_some]
+    exact Bay.chan_of_getElem? (hi.mirrors _ _ hsrc)
+  have hview : b.MuxSync false mi
+      { sel := e.shape.idx (.run c), out := e.shape.cpuOut c k i, kind := .byIndex,
+        inputs := (e.shape.rawsOf k i).map some, dflt := m.cpuDflt i } →
+      (b.chan (e.shape.cpuOut c k i)).cur = cpuView e x m i := by
+    intro hsync
+    refine track_cpu_cpuView (rs := e.shape.rawsOf k i) e x m i ⟨rfl, rfl, rfl⟩ hsync (by rw [hsel])
+      (by simp [Shape.rawsOf, Emu.shape]) ?_ rfl
+    intro g t ht
+    obtain ⟨cs, hcs, hmch, hlen⟩ := hs.getChans ht hk
+    have hg : g < e.threads.length := (List.getElem?_eq_some_iff.mp ht).1
+    refine ⟨cs, hcs, ?_⟩
+    have : (e.shape.rawsOf k i).getD g 0 = e.shape.idx (.raw g k i) := by
+      simp only [Shape.rawsOf, List.getD_eq_getElem?_getD, List.getElem?_map]
+      rw [List.getElem?_range (show g < e.shape.nT from hg)]; rfl
+    rw [this, hi.raw_cur ht hmch (by rw [hlen]; exact hil)]
+  rcases hi.sync mi _ hm with h | h
+  · exact Or.inl (hview h)
+  · by_cases hd : m.cpuDflt i = .null
+    · exact Or.inl (hview (h.sync hd))
+    · right
+      obtain ⟨h1, h2, _⟩ := h
+      exact ⟨by rw [← hsel]; exact h1, h2, hd⟩
+
+/-- **emu_event** (the composition step).  For every event accepted by the
+    reference emulator (`modelEvent e … = .ok e'`; the two hooks are writes too,
+    `HookSim`): the handlers' channel operations are a `Bay.Writes` on source
+    channels from `b` to a bay `b1` mirroring `e'`; `bay_propagate` succeeds on
+    `b1`; the result `bF` mirrors the flushed state (`Inv`: the next event starts
+    from it), and in `bF` every thread-track output equals `thView t' m i` and
+    every CPU-track output equals `cpuView e' c m i` (with the never-selected
+    exception of `emu_cpu_rows`). -/
+theorem emu_event {e e' : Emu} {b0 b : Bay} {ti mc c v : Nat} {p : List Nat}
+    {th mh : Emu → Nat → Nat → Nat → List Nat → Except Err Emu} (hth : HookSim th) (hmh : HookSim mh)
+    (hc : e.shape.connect = .ok b0) (hs : Shaped e) (hi : Inv b0 e b)
+    (h : modelEvent e ti mc c v p th mh = .ok e') :
+    ∃ b1 bF em, Bay.Writes (· < e.shape.L) b b1 ∧ Mirrors e' b1 ∧ b1.propagate = .ok (bF, em) ∧
+      Shaped e'.flushAll ∧ e'.flushAll.shape = e.shape ∧ Inv b0 e'.flushAll bF ∧
+      (∀ (g k i : Nat) (t' : Thread) (ms : ModelSpec), e'.threads[g]? = some t' →
+        e.specs[k]? = some ms → i < ms.nch →
+        (bF.chan (e.shape.thOut g k i)).cur = thView t' ms i) ∧
+      (∀ (cg k i : Nat) (x' : Cpu) (ms : ModelSpec), e'.cpus[cg]? = some x' →
+        e.specs[k]? = some ms → i < ms.nch →
+        (bF.chan (e.shape.cpuOut cg k i)).cur = cpuView e' x' ms i ∨
+        (x'.chThrun.cur = .null ∧ (bF.chan (e.shape.cpuOut cg k i)).cur = .null ∧ ms.cpuDflt i ≠ .null)) := by
+  obtain ⟨hsF, hshape, b1, bF, em, hw, hm1, _, hp, hinv⟩ := hi.modelEvent hth hmh hc hs h
+  have hcF : e'.flushAll.shape.connect = .ok b0 := by rw [hshape]; exact hc
+  have hspecs : e'.flushAll.specs = e.specs := congrArg Shape.specs hshape
+  refine ⟨b1, bF, em, hw, hm1, hp, hsF, hshape, hinv, ?_, ?_⟩
+  · intro g k i t' ms ht' hk hil
+    have htF : e'.flushAll.threads[g]? = some
+        { t' with chCpu := t'.chCpu.flush, chTid := t'.chTid.flush, chState := t'.chState.flush,
+                  mch := t'.mch.map fun x => (x.1, x.2.map Chan.flush) } := by
+      simp only [Emu.flushAll, List.getElem?_map, ht', Option.map_some]
+    have := emu_thread_rows hcF hsF hinv htF (hspecs ▸ hk) hil
+    rw [hshape, thView_flush] at this
+    exact this
+  · intro cg k i x' ms hx' hk hil
+    have hxF : e'.flushAll.cpus[cg]? = some
+        { x' with chNrun := x'.chNrun.flush, chPid := x'.chPid.flush, chTid := x'.chTid.flush,
+                  chThrun := x'.chThrun.flush, chThact := x'.chThact.flush } := by
+      simp only [Emu.flushAll, List.getElem?_map, hx', Option.map_some]
+    have := emu_cpu_rows hcF hsF hinv hxF (hspecs ▸ hk) hil
+    rw [hshape, cpuView_flushAll] at this
+    simpa only [Chan.flush_cur] using this
+
+/-- **mirrors_init.**  `emu_connect` for `mkEmu …`: connect, the connect-time
+    `chan_set`s (nOS-V / Nanos6: every thread Progressing), one `bay_propagate`.
+    The result satisfies `Inv` with `mkEmu …` — so all rows are `thView` /
+    `cpuView` of the initial state.  Hypotheses: at least one thread (the CPU
+    muxes have one input per thread), distinct model characters (true of
+    `allSpecs`; the mark group has its own id), connect-time values only on single
+    channels (`initSingle_allSpecs`). -/
+theorem emu_init (threads : List (Int × Int × Nat)) (cpus : List (Nat × Int × Bool)) (enabled : List Nat)
+    (lint : Bool) (extra : List ModelSpec) {b0 : Bay}
+    (hc : (mkEmu threads cpus enabled lint extra).shape.connect = .ok b0)
+    (hnt : 0 < threads.length)
+    (hchars : ((allSpecs.filter (fun s => enabled.contains s.char) ++ extra).map (·.char)).Nodup)
+    (hinit : InitSingle (allSpecs.filter (fun s => enabled.contains s.char) ++ extra)) :
+    Shaped (mkEmu threads cpus enabled lint extra) ∧
+    ∃ b1 bI em, Bay.Writes (· < (mkEmu threads cpus enabled lint extra).shape.L) b0 b1 ∧
+      b1.propagate = .ok (bI, em) ∧ Inv b0 (mkEmu threads cpus enabled lint extra) bI :=
+  Inv.init threads cpus enabled lint extra hc hnt hchars hinit
+
+/-- One event of a history: thread, model, category, value, payload. -/
+abbrev Ev := Nat × Nat × Nat × Nat × List Nat
+
+/-- The reference emulator on a list of events (`stepEv` = handlers, record
+    emission, flush), collecting the records. -/
+def replay (th mh : Emu → Nat → Nat → Nat → List Nat → Except Err Emu) :
+    Emu → List Ev → Except Err (Emu × List PrvRec)
+  | e, [] => .ok (e, [])
+  | e, ev :: evs =>
+    match stepEv e ev.1 ev.2.1 ev.2.2.1 ev.2.2.2.1 ev.2.2.2.2 th mh with
+    | .error x => .error x
+    | .ok (e1, rs) =>
+      match replay th mh e1 evs with
+      | .error x => .error x
+      | .ok (eF, rs') => .ok (eF, rs ++ rs')
+
+theorem stepEv_ok {e e2 : Emu} {ti m c v : Nat} {p : List Nat} {rs : List PrvRec}
+    {th mh : Emu → Nat → Nat → Nat → List Nat → Except Err Emu}
+    (h : stepEv e ti m c v p th mh = .ok (e2, rs)) :
+    ∃ e1, modelEvent e ti m c v p th mh = .ok e1 ∧ records e e1 = .ok rs ∧ e2 = e1.flushAll := by
+  unfold stepEv at h
+  simp only [bind, Except.bind, pure, Except.pure] at h
+  split at h
+  · cases h
+  · rename_i e1 h1
+    split at h
+    · cases h
+    · rename_i rs' h2
+      injection h with h; injection h with ha hb
+      exact ⟨e1, h1, hb ▸ h2, ha.symm⟩
+
+theorem Rounds.trans {ok : Nat → Prop} {b b1 b2 : Bay} (h1 : Rounds ok b b1) (h2 : Rounds ok b1 b2) :
+    Rounds ok b b2 := by
+  induction h2 with
+  | nil => exact h1
+  | round _ hw hp ih => exact .round ih hw hp
+
+/-- **emu_history** (at every instant).  After ANY list of events accepted by
+    the reference emulator, the bay reached by replaying the handlers' writes and
+    propagating after each event satisfies `Inv` with the emulator state: all
+    thread rows are `thView`, all CPU rows `cpuView` (`emu_thread_rows`,
+    `emu_cpu_rows`).  The bay history is a `Rounds` over source channels, the
+    premise of `topology_thread_rows` / `topology_cpu_rows`. -/
+theorem emu_history {th mh : Emu → Nat → Nat → Nat → List Nat → Except Err Emu} (hth : HookSim th)
+    (hmh : HookSim mh) (evs : List Ev) : ∀ {e eF : Emu} {b0 b : Bay} {rs : List PrvRec},
+    e.shape.connect = .ok b0 → Shaped e → Inv b0 e b → replay th mh e evs = .ok (eF, rs) →
+    ∃ bF, Rounds (· < e.shape.L) b bF ∧ Shaped eF ∧ eF.shape = e.shape ∧ Inv b0 eF bF := by
+  induction evs with
+  | nil =>
+    intro e eF b0 b rs hc hs hi h
+    injection h with h; injection h with h1 _
+    subst h1
+    exact ⟨b, .nil b, hs, rfl, hi⟩
+  | cons ev evs ih =>
+    intro e eF b0 b rs hc hs hi h
+    rw [replay] at h
+    split at h
+    · cases h
+    · rename_i e2 rs1 hstep
+      split at h
+      · cases h
+      · rename_i eF' rs2 hrest
+        injection h with h; injection h with h1 _
+        subst h1
+        obtain ⟨e1, hme, _, rfl⟩ := stepEv_ok hstep
+        obtain ⟨hs1, hsh1, b1, b2, em, hw, _, _, hp, hi1⟩ := hi.modelEvent hth hmh hc hs hme
+        obtain ⟨bF, hr, hsF, hshF, hiF⟩ := ih (hsh1 ▸ hc) hs1 hi1 hrest
+        rw [hsh1] at hr
+        exact ⟨bF, (Rounds.round (.nil b) hw hp).trans hr, hsF, hshF.trans hsh1, hiF⟩
+
+/-- **emu_run**: the same from the initial state: connect, connect-time writes
+    and first propagation (`emu_init`), then any accepted history. -/
+theorem emu_run {th mh : Emu → Nat → Nat → Nat → List Nat → Except Err Emu} (hth : HookSim th)
+    (hmh : HookSim mh) (threads : List (Int × Int × Nat)) (cpus : List (Nat × Int × Bool))
+    (enabled : List Nat) (lint : Bool) (extra : List ModelSpec) {b0 : Bay} (evs : List Ev) {eF : Emu}
+    {rs : List PrvRec}
+    (hc : (mkEmu threads cpus enabled lint extra).shape.connect = .ok b0)
+    (hnt : 0 < threads.length)
+    (hchars : ((allSpecs.filter (fun s => enabled.contains s.char) ++ extra).map (·.char)).Nodup)
+    (hinit : InitSingle (allSpecs.filter (fun s => enabled.contains s.char) ++ extra))
+    (h : replay th mh (mkEmu threads cpus enabled lint extra) evs = .ok (eF, rs)) :
+    ∃ bF, Rounds (· < (mkEmu threads cpus enabled lint extra).shape.L) b0 bF ∧ Shaped eF ∧
+      eF.shape = (mkEmu threads cpus enabled lint extra).shape ∧ Inv b0 eF bF := by
+  obtain ⟨hs, b1, bI, em, hw, hp, hi⟩ := emu_init threads cpus enabled lint extra hc hnt hchars hinit
+  obtain ⟨bF, hr, hsF, hshF, hiF⟩ := emu_history hth hmh evs hc hs hi h
+  exact ⟨bF, (Rounds.round (.nil b0) hw hp).trans hr, hsF, hshF, hiF⟩
+
+/-- The hooks in use satisfy the hook hypothesis: the task layer is outside
+    `Emu/Core` (`noHook`), the mark events are one push / pop / set. -/
+theorem hooks_in_use (tab : List MarkType) :
+    HookSim (fun _ _ _ _ _ => .error .unknownEvent) ∧ HookSim (fun e ti _ v p => markEvent tab e ti v p) :=
+  ⟨hookSim_none, hookSim_mark tab⟩
 
 /-! ### The generated channel specs only use the modes the theorems cover -/
 
@@ -532,6 +770,140 @@ theorem generated_thread_modes :
 /-- Every CPU tracking mode is RUN (`connect_cpu` rejects anything else), and
     the CPU tracks select on `th_running`, which is what `cpuView` reads. -/
 theorem generated_cpu_modes : ∀ s ∈ allSpecs, ∀ x ∈ s.cpuTrack, x = trackRun := by decide
+
+/-! ### No hypothesis left for the configurations the emulator runs -/
+
+/-- `emu_connect` succeeds (`bayOf e` is what it builds) whenever the tracking
+    modes of the specs are the ones `track_th_input_chan` / `connect_cpu`
+    accept. -/
+theorem bayOf_connects {e : Emu} (hmo : e.shape.ModesOk) : e.shape.connect = .ok (bayOf e) := by
+  obtain ⟨b0, h⟩ := e.shape.connect_total hmo
+  rw [bayOf_eq h]; exact h
+
+/-- The generated specs of any enabled set of models, plus the mark group of
+    any mark table, satisfy the three side conditions of `emu_init`. -/
+theorem driver_side_conditions (enabled : List Nat) (tab : List MarkType) :
+    let specs := allSpecs.filter (fun s => enabled.contains s.char) ++ markExtra tab
+    (∀ m ∈ specs, ∀ i : Nat,
+      (m.thTrack.getD i 0 = trackAny ∨ m.thTrack.getD i 0 = trackRun ∨ m.thTrack.getD i 0 = trackAct) ∧
+      m.cpuTrack.getD i trackRun = trackRun) ∧
+    (specs.map (·.char)).Nodup ∧ InitSingle specs := by
+  intro specs
+  have hmem : ∀ m ∈ specs, m ∈ allSpecs ∨ (m = markSpec tab) := by
+    intro m hm
+    rcases List.mem_append.mp hm with h | h
+    · exact Or.inl (List.mem_filter.mp h).1
+    · right
+      unfold markExtra at h
+      split at h
+      · cases h
+      · simpa using h
+  refine ⟨?_, ?_, ?_⟩
+  · have := Shape.modesOk_of_lists (σ := ⟨0, 0, specs⟩)
+      (by
+        intro m hm x hx
+        rcases hmem m hm with h | rfl
+        · exact generated_thread_modes m h x hx
+        · simp only [markSpec, List.mem_map] at hx
+          obtain ⟨_, _, rfl⟩ := hx; exact Or.inr (Or.inr rfl))
+      (by
+        intro m hm x hx
+        rcases hmem m hm with h | rfl
+        · exact generated_cpu_modes m h x hx
+        · simp only [markSpec, List.mem_map] at hx
+          obtain ⟨_, _, rfl⟩ := hx; rfl)
+    exact this
+  · show ((allSpecs.filter (fun s => enabled.contains s.char) ++ markExtra tab).map (·.char)).Nodup
+    rw [List.map_append, List.nodup_append]
+    refine ⟨?_, ?_, ?_⟩
+    · have h0 : (allSpecs.map (·.char)).Nodup := by decide
+      exact List.Nodup.sublist (List.Sublist.map _ List.filter_sublist) h0
+    · unfold markExtra; split
+      · exact List.nodup_nil
+      · simp
+    · intro a ha b hb
+      obtain ⟨m, hm, rfl⟩ := List.mem_map.mp ha
+      have hm' := (List.mem_filter.mp hm).1
+      have h1 : ∀ s ∈ allSpecs, s.char ≠ markGroup := by decide
+      unfold markExtra at hb
+      split at hb
+      · cases hb
+      · simp only [List.map_cons, List.map_nil, List.mem_singleton] at hb
+        rw [hb]; exact h1 m hm'
+  · intro m hm i v hv
+    rcases List.mem_append.mp hm with h | h
+    · exact initSingle_allSpecs enabled m h i v hv
+    · unfold markExtra at h
+      split at h
+      · cases h
+      · simp only [List.mem_singleton] at h
+        subst h
+        simp [ModelSpec.initOf, markSpec] at hv
+
+/-- **emu_run for the emulator as it is run** (`Drivers/Emu.lean`: any thread
+    and CPU lists with at least one thread, any set of enabled models, any mark
+    table; hooks: no task layer, `markEvent`).  No other hypothesis: the
+    connected bay exists, and after ANY accepted history the bay reached by
+    replaying the handlers' writes and propagating satisfies `Inv` — so every
+    thread row is `thView`, every CPU row `cpuView` (`emu_thread_rows`,
+    `emu_cpu_rows`). -/
+theorem emu_run_driver (threads : List (Int × Int × Nat)) (cpus : List (Nat × Int × Bool))
+    (enabled : List Nat) (lint : Bool) (tab : List MarkType) (evs : List Ev) {eF : Emu} {rs : List PrvRec}
+    (hnt : 0 < threads.length)
+    (h : replay (fun _ _ _ _ _ => .error .unknownEvent) (fun e ti _ v p => markEvent tab e ti v p)
+      (mkEmu threads cpus enabled lint (markExtra tab)) evs = .ok (eF, rs)) :
+    ∃ b0 bF, (mkEmu threads cpus enabled lint (markExtra tab)).shape.connect = .ok b0 ∧
+      Rounds (· < (mkEmu threads cpus enabled lint (markExtra tab)).shape.L) b0 bF ∧ Shaped eF ∧
+      eF.shape = (mkEmu threads cpus enabled lint (markExtra tab)).shape ∧ Inv b0 eF bF := by
+  obtain ⟨hmo, hchars, hinit⟩ := driver_side_conditions enabled tab
+  have hc := bayOf_connects (e := mkEmu threads cpus enabled lint (markExtra tab)) hmo
+  obtain ⟨bF, hr, hsF, hshF, hiF⟩ := emu_run hookSim_none (hookSim_mark tab) threads cpus enabled lint
+    (markExtra tab) evs hc hnt hchars hinit h
+  exact ⟨_, bF, hc, hr, hsF, hshF, hiF⟩
+
+/-
+-- OPEN (what is left of the last composition step).
+--
+-- Proved now (this section + Lemmas/CoreBay*.lean): the simulation from the handlers of
+-- `Emu/Core` to bay writes (`Sim.modelEvent`, a structural induction over `modelEvent`:
+-- thread.c / cpu.c operations, `withChan`, the table-driven models, the ovni thread,
+-- affinity and flush events, the kernel model's out-of-CPU flag), hence `emu_event` — the
+-- statement that used to be here — for EVERY accepted event, `emu_init` for `mkEmu`, and
+-- `emu_history` / `emu_run` for every accepted history.  The mirror is no longer a
+-- hypothesis: `Inv` is established by `emu_connect` and preserved by every event, and
+-- `emu_thread_rows` / `emu_cpu_rows` read the rows off it.  The simulation is refined by
+-- source class (`SimP`): thread / affinity events write only thread-state and
+-- `th_running` / `th_active` channels, model events only raw channels; C20 uses this for
+-- the order in which the CPU track outputs enter the dirty list
+-- (`C20.dirty_level_ordered_sys`).
+--
+-- Still open:
+--  (1) `View.records` = what the emit callbacks see.  `emu_event` gives the VALUES of all
+--      rows after every event; the RECORDS additionally need the emit side: `BAY_CB_EMIT`
+--      on every track output / ANY raw channel, the PRV duplicate rules of `prv.c: emit`
+--      (`PRV_SKIPDUP`, `PRV_SKIPDUPNULL`, `PRV_EMITDUP` per channel) and the statement
+--      "`records e e'` is a permutation of the lines `emit` writes for `b1.emitPhase`".
+--      An output is on the dirty list whenever its mux was re-selected, also with an
+--      unchanged value; `View.emitView` emits only on change, i.e. it already folds the
+--      SKIPDUP behaviour in.  Not modelled in Lean; covered by X2 (e2e comparison of
+--      every PRV line with the real `ovniemu`).
+--  (2) The one place where values differ (`emu_cpu_rows`, second disjunct): a CPU track
+--      with a non-null default on a CPU whose `th_running` was never written shows null in
+--      the bay (and in the C emulator), the default in `cpuView`.  No record is involved.
+--  (3) The system channels that no mux reads (thread `cpu` / `tid`, CPU `nrunning` /
+--      `pid` / `tid`) are not part of `bayOf`; their rows are `emitRaw` of the emulator
+--      channel itself.
+--  (4) The task layer of nOS-V / Nanos6 (`VT*`, `VY*`, `6T*`, `6Y*`) is a hook of
+--      `modelEvent` (`Emu/Task.lean` has its own state); for it `HookSim` is a hypothesis
+--      (`hooks_in_use`: it holds for the hooks the driver runs, `noHook` and `markEvent`).
+--  (5) `emu_init` / `emu_run` keep three side conditions on the spec list (accepted
+--      tracking modes so that `Shape.connect` succeeds — `bayOf_connects`; distinct model
+--      characters; connect-time values on single channels) and "at least one thread".
+--      `driver_side_conditions` discharges the first three for every enabled set and
+--      every mark table (`emu_run_driver`); a hierarchy without threads accepts no event.
+--  (6) Outside the frame condition as before: muxes whose select is one of their own
+--      inputs, and chained muxes (breakdown model) — X1 only.
+-/
 
 /-! ### Non-vacuity: a concrete thread + CPU network
 
@@ -740,5 +1112,84 @@ theorem exT2_connected : Connected 3 exT2.1 := by
     (by intro c hc; simp at hc; subst hc; decide) h2
 
 example : exT2.1.muxes.length = 2 ∧ exT2.2 = 4 := by decide
+
+
+/-! ### Non-vacuity of the emulator-level theorems
+
+Hierarchy: two threads of one process, one physical and the virtual CPU of one
+loom, models ovni + nOS-V (8 raw channels per thread: 22 source channels, 32
+tracks of which 30 are muxes).  History: thread 0 starts on CPU 0 (`OHx`),
+enters a nOS-V subsystem (`VAa`, a push on the stack channel), pauses and
+resumes (`OHp`, `OHr`), leaves the subsystem (`VAA`) and ends (`OHe`). -/
+
+def exEmu : Emu := mkEmu [(100, 10, 0), (101, 10, 0)] [(0, 0, false), (0, -1, true)] [79, 86] false []
+def exEmuBay : Bay := bayOf exEmu
+
+/-- `Shape.connect` succeeds on the concrete hierarchy. -/
+theorem exEmuBay_connect : exEmu.shape.connect = .ok exEmuBay := by rfl
+
+example : exEmu.shape.L = 22 ∧ exEmuBay.chans.length = 54 ∧ exEmuBay.muxes.length = 30 := by decide
+
+def exNoHook : Emu → Nat → Nat → Nat → List Nat → Except Err Emu := fun _ _ _ _ _ => .error .unknownEvent
+
+def exHist : List Ev :=
+  [(0, 79, 72, 120, [0, 0, 0, 0]), (0, 86, 65, 97, []), (0, 79, 72, 112, []), (0, 79, 72, 114, []),
+   (0, 86, 65, 65, []), (0, 79, 72, 101, [])]
+
+theorem exHist_accepted :
+    (match replay exNoHook exNoHook exEmu exHist with | .ok _ => true | .error _ => false) = true := by decide
+
+theorem exEmu_chars :
+    ((allSpecs.filter (fun s : ModelSpec => [79, 86].contains s.char) ++ []).map ModelSpec.char).Nodup := by
+  decide
+
+theorem exEmu_initSingle : InitSingle (allSpecs.filter (fun s => [79, 86].contains s.char) ++ []) := by
+  rw [List.append_nil]; exact initSingle_allSpecs _
+
+/-- All hypotheses of `emu_run` hold for the concrete history, hence its
+    conclusion: a bay reachable from the connected one with `Inv`, in which all
+    rows are `thView` / `cpuView` of the final state. -/
+example : ∃ eF rs bF, replay exNoHook exNoHook exEmu exHist = .ok (eF, rs) ∧
+    Rounds (· < exEmu.shape.L) exEmuBay bF ∧ Inv exEmuBay eF bF ∧
+    ∀ (g k i : Nat) (t : Thread) (m : ModelSpec), eF.threads[g]? = some t → eF.specs[k]? = some m →
+      i < m.nch → (bF.chan (eF.shape.thOut g k i)).cur = thView t m i := by
+  cases h : replay exNoHook exNoHook exEmu exHist with
+  | error x => have := exHist_accepted; rw [h] at this; cases this
+  | ok r =>
+    obtain ⟨eF, rs⟩ := r
+    obtain ⟨bF, hr, hsF, hshF, hiF⟩ := emu_run hookSim_none hookSim_none _ _ _ _ _ exHist exEmuBay_connect
+      (by decide) exEmu_chars exEmu_initSingle h
+    have hcF : eF.shape.connect = .ok exEmuBay := by rw [hshF]; exact exEmuBay_connect
+    exact ⟨eF, rs, bF, rfl, hr, hiF, fun g k i t m ht hk hi => emu_thread_rows hcF hsF hiF ht hk hi⟩
+
+/-- `emu_event` applies to the first event (`OHx`) from the initial state
+    given by `emu_init`. -/
+example : ∃ bI e' b1 bF em, Inv exEmuBay exEmu bI ∧
+    modelEvent exEmu 0 79 72 120 [0, 0, 0, 0] exNoHook exNoHook = .ok e' ∧
+    Bay.Writes (· < exEmu.shape.L) bI b1 ∧ Mirrors e' b1 ∧ b1.propagate = .ok (bF, em) ∧
+    Inv exEmuBay e'.flushAll bF := by
+  obtain ⟨hs, _, bI, _, _, _, hi⟩ := emu_init _ _ _ _ _ exEmuBay_connect (by decide) exEmu_chars exEmu_initSingle
+  cases h : modelEvent exEmu 0 79 72 120 [0, 0, 0, 0] exNoHook exNoHook with
+  | error x =>
+    have : (match modelEvent exEmu 0 79 72 120 [0, 0, 0, 0] exNoHook exNoHook with
+      | .ok _ => true | .error _ => false) = true := by decide
+    rw [h] at this; cases this
+  | ok e' =>
+    obtain ⟨b1, bF, em, hw, hm, hp, _, _, hiF, _⟩ := emu_event hookSim_none hookSim_none exEmuBay_connect hs hi h
+    exact ⟨bI, e', b1, bF, em, hi, rfl, hw, hm, hp, hiF⟩
+
+/-- The exception in `emu_cpu_rows` is real.  `emu_connect` computed on the
+    concrete hierarchy (connect, the `chan_set` of every thread's idle channel,
+    `bay_propagate`): the idle track (nOS-V channel 6) of a CPU that never had a
+    thread still shows null, where `cpuView` shows the default "Resting" (101);
+    thread 0's raw idle channel holds "Progressing" (100), flushed. -/
+def exInitBay : Bay :=
+  let b1 := (exEmu.shape.addrs.filter exEmu.shape.hasInit).foldl
+    (fun b s => unwrap b (b.write (exEmu.shape.idx s) (exEmu.shape.initOp s))) exEmuBay
+  (unwrap (b1, []) b1.propagate).1
+
+example : (exInitBay.chan (exEmu.shape.cpuOut 1 1 6)).cur = .null ∧
+    (match exEmu.cpus[1]? with | some x => cpuView exEmu x specNosv 6 | none => .null) = .int 101 ∧
+    (exInitBay.chan (exEmu.shape.idx (.raw 0 1 6))).cur = .int 100 ∧ exInitBay.dirty = [] := by decide
 
 end Ovni.Props.C06
